@@ -23,6 +23,7 @@ def run(ctx):
                             'all code points in text; boundary floats and non-finite numbers; all mapped zones incl. transition instants; depth <= 3; '
                             'versions 2.0 / 3.0); distinct by dumped text; a grid is non-trivial when it holds a non-null value')
     gs = [codec.gen_grid(rng, rng.choice(['2.0', '3.0', '3.0']), depth=rng.choice([0, 1, 2, 3])) for _ in range(n)]
+    gs += codec.zone_sweep_grids(rng)        # one date-time in every mapped zone
     answers = zincsim.model_zdump(ctx, gs)
     seen = set()
     corr = False
